@@ -78,6 +78,17 @@ func facts(repo string, w io.Writer) error {
 	fmt.Fprintf(w, "(* pkg/receive/hashring.go simpleHashring.GetN: guard `%s`, index `%s` (uint64 arithmetic read over Z: no wrap-around) *)\n", s.ExprString(guard), s.ExprString(index))
 	fmt.Fprintf(w, "Definition simple_insufficient (len_ : Z -> Z) (n s : Z) : bool := %s.\n", g)
 	fmt.Fprintf(w, "Definition simple_index (HWP : Z -> Z -> Z) (len_ : Z -> Z) (tenant labels n s : Z) : Z := %s.\n", ix)
+	// ketamaHashring.GetN: the predicate handed to sort.Search
+	gd, err := s.FindFunc("ketamaHashring.GetN")
+	if err != nil {
+		return err
+	}
+	op, err := hashringutil.SearchPredicate(gd, s.ExprString, "c.sections[i].hash", "v")
+	if err != nil {
+		return err
+	}
+	fmt.Fprintln(w, "(* pkg/receive/hashring.go ketamaHashring.GetN: sort.Search(len(c.sections), func(i int) bool { return c.sections[i].hash <op> v }) *)")
+	fmt.Fprintf(w, "Definition ketama_search_pred (hash v : Z) : bool := (hash %s v).\n", op)
 	return nil
 }
 
@@ -487,5 +498,5 @@ func gen(r *rand.Rand, tier string, n int) []any {
 }
 
 func main() {
-	common.Main(common.Prop{ID: "C18", Facts: facts, Gen: gen, Run: run, QuickN: 400, ThoroughN: 6000})
+	common.Main(common.Prop{ID: "C18", Facts: facts, Gen: gen, Run: run, QuickN: 400, ThoroughN: 3000})
 }
